@@ -27,6 +27,9 @@ func registerStd(e *Engine) {
 	for _, n := range []string{"golang.org/x/sys/unix.Getpagesize", "syscall.Getpagesize", "os.Getpagesize"} {
 		e.reg(n, func(e *Engine, st *State, cc *CallCtx) (Value, bool) { return c.Const(4096, 64), true })
 	}
+	e.reg("github.com/els0r/goProbe/v4/pkg/types/hashmap.runtimeFastrand64", func(e *Engine, st *State, cc *CallCtx) (Value, bool) {
+		return c.Const(0x9E3779B97F4A7C15, 64), true
+	})
 	e.reg("(*sync.Once).Do", func(e *Engine, st *State, cc *CallCtx) (Value, bool) {
 		p := cc.Args[0].(Ptr)
 		key := Ptr{Obj: p.Obj, Path: p.Path}
